@@ -74,11 +74,20 @@ class PathEnd(Exception):
 # mutable containers created by interpreted code
 
 
+CURRENT_CTX = None      # the Ctx of the path being executed (containers remember the frame depth of creation)
+
+
+def _depths():
+    c = CURRENT_CTX
+    return (len(c.generic), len(c.preds)) if c is not None else (0, 0)
+
+
 class MList(SeqBase):
     """Python list created/owned by interpreted code. nodes: Lit/Loop tree (concatenation)."""
 
     def __init__(self, items=None, nodes=None):
         self.nodes: list = nodes if nodes is not None else [Lit(x) for x in (items or [])]
+        self.depth, self.pdepth = _depths()
 
     def __hash__(self):
         return id(self)
@@ -112,6 +121,7 @@ class MDict(Sym):
     def __init__(self, d: Optional[dict] = None):
         self.d: dict = d if d is not None else {}
         self.nodes: list = []      # symbolic contributions, elements are (key, value) tuples
+        self.depth, self.pdepth = _depths()
 
     def __hash__(self):
         return id(self)
@@ -127,6 +137,7 @@ class MSet(Sym):
     def __init__(self, items=None):
         self.items: list = list(items or [])     # concrete members (possibly symbolic scalars, by identity)
         self.nodes: list = []                    # symbolic contributions
+        self.depth, self.pdepth = _depths()
 
     def __hash__(self):
         return id(self)
@@ -136,6 +147,17 @@ class MSet(Sym):
 
     def as_seq(self) -> Seq:
         return Seq([Lit(x) for x in self.items] + self.nodes, label='mset')
+
+
+class AbstractFn(Sym):
+    """A caller-supplied callable known only by contract: handler(interp, args, kwargs, node)."""
+
+    def __init__(self, name, handler):
+        self.name = name
+        self.handler = handler
+
+    def __repr__(self):
+        return f'AbstractFn<{self.name}>'
 
 
 class Closure:
@@ -402,9 +424,17 @@ class Interp:
         ctx = self.ctx
         if isinstance(f, BoundMethod):
             return self.call(f.func, [f.self_obj] + list(args), kwargs, node)
+        from vc.pyvc.builtins_sym import _WithClass
+        if isinstance(f, _WithClass):
+            h = self.find_contract(f.fn)
+            if h is not None:
+                return h(self, args, kwargs, node)
+            return self.call_function(f.fn, args, kwargs, defining_class=f.cls)
         h = self.find_contract(f)
         if h is not None:
             return h(self, args, kwargs, node)
+        if isinstance(f, AbstractFn):
+            return f.handler(self, args, kwargs, node)
         if isinstance(f, Closure):
             return self.call_closure(f, args, kwargs)
         if isinstance(f, types.MethodType):
@@ -418,6 +448,9 @@ class Interp:
                 return self.call_function(f, args, kwargs)
         if f is typing.cast:
             return args[1]
+        if f is int.__new__ or f is str.__new__:
+            # value subclasses (wn.Form, wn.Count): object carrying the value + attributes
+            return SObj(args[0], {'__value__': args[1] if len(args) > 1 else None})
         # classes of the package: symbolic instantiation
         if isinstance(f, type):
             mod = getattr(f, '__module__', '') or ''
@@ -1028,6 +1061,9 @@ class Interp:
             self.exec_block(list(orelse), env)
             return
         seq = self.to_seq(it)
+        if self._dedup_idiom(seq, target, body, env):
+            self.exec_block(list(orelse), env)
+            return
         saved_body = getattr(self, '_cur_loop_body', None)
         self._cur_loop_body = ([ast.Assign(targets=[target], value=ast.Constant(value=None))] + list(body)
                                if isinstance(body, list) else None)
@@ -1038,13 +1074,52 @@ class Interp:
             self._cur_loop_body = saved_body
         self.exec_block(list(orelse), env)
 
+    def _dedup_idiom(self, seq, target, body, env) -> bool:
+        """for x in xs:  if x not in seen:  out.append(x); seen.add(x)      (order-preserving de-duplication)
+        Summarised as  out ++= dedup(xs), seen |= set(xs)  when both accumulators are empty before the loop
+        (lemma A-DEDUP, cross-checked by bounded execution of the real loop in the C09 check)."""
+        if not (isinstance(target, ast.Name) and len(body) == 1 and isinstance(body[0], ast.If)
+                and not body[0].orelse):
+            return False
+        test = body[0].test
+        x = target.id
+        if not (isinstance(test, ast.Compare) and len(test.ops) == 1 and isinstance(test.ops[0], ast.NotIn)
+                and isinstance(test.left, ast.Name) and test.left.id == x
+                and isinstance(test.comparators[0], ast.Name)):
+            return False
+        seen_name = test.comparators[0].id
+        stmts = body[0].body
+        if len(stmts) != 2:
+            return False
+        calls = {}
+        for st in stmts:
+            if not (isinstance(st, ast.Expr) and isinstance(st.value, ast.Call)
+                    and isinstance(st.value.func, ast.Attribute) and isinstance(st.value.func.value, ast.Name)
+                    and len(st.value.args) == 1 and isinstance(st.value.args[0], ast.Name)
+                    and st.value.args[0].id == x):
+                return False
+            calls[st.value.func.attr] = st.value.func.value.id
+        if set(calls) != {'append', 'add'} or calls['add'] != seen_name:
+            return False
+        out = env.lookup(calls['append'])
+        seen = env.lookup(seen_name)
+        if not (isinstance(out, MList) and not out.nodes and isinstance(seen, MSet)
+                and not seen.items and not seen.nodes):
+            return False
+        d = Seq(list(seq.nodes), distinct=True, label='dedup')
+        out.nodes.extend(d.nodes)
+        out.dedup = True
+        seen.nodes.extend(seq.nodes)
+        self.ctx.notes.append('A-DEDUP')
+        return True
+
     def generic_loop(self, seq: Seq, bind, run_body, env):
         """Execute `run_body` once per leaf of seq with a generic element bound via `bind`."""
         ctx = self.ctx
         outer_names = set()
         e = env
         while e is not None:
-            outer_names.update(e.vars)
+            outer_names.update(k for k, v in e.vars.items() if not isinstance(v, _LoopLocal))
             e = e.parent
         for node in seq.nodes:
             self._generic_node(node, bind, run_body, env, outer_names)
@@ -1534,10 +1609,13 @@ class Interp:
         frames = ctx.generic
         return frames, z_and(*guard_parts)
 
-    def _append_node(self, nodes: list, elem):
-        """Append elem to the node list at the position given by the active generic frames."""
+    def _append_node(self, nodes: list, elem, owner=None):
+        """Append elem to the node list at the position given by the generic frames that were entered after
+        the owning container was created."""
         ctx = self.ctx
-        frames = [f for f in ctx.generic]
+        d0 = getattr(owner, 'depth', 0) if owner is not None else 0
+        p0 = getattr(owner, 'pdepth', 0) if owner is not None else 0
+        frames = [f for f in ctx.generic[d0:]]
         cur = nodes
         # walk / create Loop nodes for frames that have binders; guards of binder-less frames are conjoined
         pending_guard = []
@@ -1560,14 +1638,12 @@ class Interp:
                 pending_guard.append(f.guard)
                 if f.active is not True:
                     pending_guard.append(f.active)
-        g = z_and(*pending_guard, *ctx.preds)
-        if not ctx.generic and ctx.preds:
-            g = z_and(*ctx.preds)
+        g = z_and(*pending_guard, *ctx.preds[p0:])
         cur.append(Lit(elem, True if (g is True or z3.is_true(g)) else g))
 
     def list_append(self, lst, elem):
         if isinstance(lst, MList):
-            self._append_node(lst.nodes, elem)
+            self._append_node(lst.nodes, elem, lst)
             return
         raise Unsupported(f'append to {type(lst).__name__}')
 
@@ -1579,32 +1655,32 @@ class Interp:
         items = self.concrete_items(src)
         if items is not None:
             for x in items:
-                self._append_node(lst.nodes, x)
+                self._append_node(lst.nodes, x, lst)
             return
         seq = self.to_seq(src)
-        if not self.ctx.generic and not self.ctx.preds:
+        if len(self.ctx.generic) <= lst.depth and len(self.ctx.preds) <= lst.pdepth:
             lst.nodes.extend(seq.nodes)
             return
         # inside a generic context: nest the source's nodes under the active frames
-        self._append_nested(lst.nodes, seq.nodes)
+        self._append_nested(lst.nodes, seq.nodes, lst)
 
-    def _append_nested(self, nodes, new_nodes):
+    def _append_nested(self, nodes, new_nodes, owner=None):
         marker = _NestMarker(new_nodes)
-        self._append_node(nodes, marker)
+        self._append_node(nodes, marker, owner)
         # replace the marker Lit by the nodes (with the Lit's guard pushed down)
         _splice_marker(nodes, marker)
 
     def set_add(self, st, elem):
         if not isinstance(st, MSet):
             raise Unsupported(f'add to {type(st).__name__}')
-        if not self.ctx.generic and not self.ctx.preds:
+        if len(self.ctx.generic) <= st.depth and len(self.ctx.preds) <= st.pdepth:
             if not is_sym(elem) and not contains_sym(elem):
                 if elem not in [x for x in st.items if not is_sym(x) and not contains_sym(x)]:
                     st.items.append(elem)
             else:
                 st.items.append(elem)
             return
-        self._append_node(st.nodes, elem)
+        self._append_node(st.nodes, elem, st)
 
     def set_update(self, st, src):
         items = self.concrete_items(src)
@@ -1613,10 +1689,10 @@ class Interp:
                 self.set_add(st, x)
             return
         seq = self.to_seq(src)
-        if not self.ctx.generic and not self.ctx.preds:
+        if len(self.ctx.generic) <= st.depth and len(self.ctx.preds) <= st.pdepth:
             st.nodes.extend(seq.nodes)
         else:
-            self._append_nested(st.nodes, seq.nodes)
+            self._append_nested(st.nodes, seq.nodes, st)
 
     def dict_update(self, d, src):
         if isinstance(src, MDict) and src.is_concrete():
@@ -1641,10 +1717,10 @@ class Interp:
             return
         seq = self.to_seq(src)
         if isinstance(d, MDict):
-            if not self.ctx.generic and not self.ctx.preds:
+            if len(self.ctx.generic) <= d.depth and len(self.ctx.preds) <= d.pdepth:
                 d.nodes.extend(seq.nodes)
             else:
-                self._append_nested(d.nodes, seq.nodes)
+                self._append_nested(d.nodes, seq.nodes, d)
             return
         raise Unsupported('dict update')
 
@@ -1994,6 +2070,8 @@ def explore(run: Callable[[Interp], Any], contracts=None, max_paths: int = 4000,
     while work:
         prefix = work.pop()
         ctx = Ctx(prefix)
+        global CURRENT_CTX
+        CURRENT_CTX = ctx
         ctx.pc.extend(pre)
         interp = Interp(ctx, dict(contracts or {}), packages, no_inline)
         try:
